@@ -101,6 +101,7 @@ func genC09(t *rapid.T) Case {
 	c := Case{Prof: "c09", Roots: 1, MaxDir: 100}
 	c.Keys = GenKeys(t, 2, 4, false)
 	c.Workers = rapid.SampledFrom([]int{0, 0, 1, 8}).Draw(t, "workers")
+	c.FastGC = rapid.IntRange(0, 3).Draw(t, "fastGC") == 0
 	dense := rapid.Bool().Draw(t, "denseGC")
 	gcw := 6
 	if dense {
